@@ -342,4 +342,27 @@ theorem doubleExcitationGenerator_lit : doubleExcitationGenerator =
    [0, 0, 0, 0, 0, 0, 0, 0, 0, 0, 0, 0, 0, 0, 0, 0]] := by
   decide +kernel
 
+def fswap01 : Mat :=
+  [[1, 0, 0, 0, 0, 0, 0, 0],
+   [0, 1, 0, 0, 0, 0, 0, 0],
+   [0, 0, 0, 0, 1, 0, 0, 0],
+   [0, 0, 0, 0, 0, 1, 0, 0],
+   [0, 0, 1, 0, 0, 0, 0, 0],
+   [0, 0, 0, 1, 0, 0, 0, 0],
+   [0, 0, 0, 0, 0, 0, -1, 0],
+   [0, 0, 0, 0, 0, 0, 0, -1]]
+def fswap12 : Mat :=
+  [[1, 0, 0, 0, 0, 0, 0, 0],
+   [0, 0, 1, 0, 0, 0, 0, 0],
+   [0, 1, 0, 0, 0, 0, 0, 0],
+   [0, 0, 0, -1, 0, 0, 0, 0],
+   [0, 0, 0, 0, 1, 0, 0, 0],
+   [0, 0, 0, 0, 0, 0, 1, 0],
+   [0, 0, 0, 0, 0, 1, 0, 0],
+   [0, 0, 0, 0, 0, 0, 0, -1]]
+
+theorem fswap01_eq : fswap01 = Mat.kron fswap [[1, 0], [0, 1]] := by decide +kernel
+theorem fswap12_eq : fswap12 = Mat.kron [[1, 0], [0, 1]] fswap := by decide +kernel
+
+
 end OFV.C14
